@@ -2,6 +2,7 @@ package main
 
 import (
 	"bytes"
+	"regexp"
 	"context"
 	"fmt"
 	"strings"
@@ -226,6 +227,8 @@ func c02CoqForestX(nodes []*html.Node, canon bool) (string, bool) {
 	return rec(nodes), ok
 }
 
+var c02BrRe = regexp.MustCompile(`<br([^>]*)></br>`)
+
 func init() { streams["C02"] = runC02 }
 
 func runC02(r *Run) {
@@ -267,8 +270,8 @@ func runC02(r *Run) {
 		c1, c2 := c02Canon(p1), c02Canon(p2)
 		class := "other"
 		switch {
-		case strings.Contains(src, "<br"):
-			class = "br"
+		case strings.Contains(src, "<br") && c1 == c02Canon(c02Parse(c02BrRe.ReplaceAllString(out, "<br$1>"), full)):
+			class = "br" // the known defect is the whole difference: with <br></br> read as one break the documents agree
 		case strings.Contains(src, "<pre") || strings.Contains(src, "<textarea"):
 			class = "pre-textarea"
 		}
